@@ -356,6 +356,8 @@ class Heap(object):
             return OpaqueV(RefV(term, None), field)
         if t == "optfloat":
             return Opt(self.nonearr(field).select(term), Num(self._arr(field, z3.RealSort()).select(term), False, False))
+        if t == "optdate":
+            return Opt(self.nonearr(field).select(term), Num(self._arr(field, z3.IntSort()).select(term), False, True))
         if t == "optdict":
             return Opt(self.nonearr(field).select(term), ("dictref", self._arr(field, Ref).select(term)))
         if t == "optstr":
@@ -405,6 +407,14 @@ class Heap(object):
             v = Num.lift(val.val if isinstance(val, Opt) else val)
             self.maps[field + "#none"] = self.nonearr(field).store(term, val.isnone if isinstance(val, Opt) else z3.BoolVal(False))
             self.maps[field] = self._arr(field, z3.RealSort()).store(term, v.real())
+            return
+        if t == "optdate":
+            if type(val).__name__ == "NoneV":
+                self.maps[field + "#none"] = self.nonearr(field).store(term, z3.BoolVal(True))
+                return
+            v = Num.lift(val.val if isinstance(val, Opt) else val)
+            self.maps[field + "#none"] = self.nonearr(field).store(term, val.isnone if isinstance(val, Opt) else z3.BoolVal(False))
+            self.maps[field] = self._arr(field, z3.IntSort()).store(term, v.r)
             return
         if t == "optdict":
             if type(val).__name__ == "NoneV":
